@@ -135,7 +135,6 @@ func (chars *Chars) TrimLength() uint16 {
 	if chars.trimLengthKnown {
 		return chars.trimLength
 	}
-	chars.trimLengthKnown = true
 	var i int
 	len := chars.Length()
 	for i = len - 1; i >= 0; i-- {
@@ -146,6 +145,7 @@ func (chars *Chars) TrimLength() uint16 {
 	}
 	// Completely empty
 	if i < 0 {
+		chars.trimLengthKnown = true
 		return 0
 	}
 
@@ -156,8 +156,12 @@ func (chars *Chars) TrimLength() uint16 {
 			break
 		}
 	}
-	chars.trimLength = AsUint16(i - j + 1)
-	return chars.trimLength
+	// The value is memoised by concurrent searches and items are copied while
+	// searches run: store the length before announcing that it is known
+	trimLength := AsUint16(i - j + 1)
+	chars.trimLength = trimLength
+	chars.trimLengthKnown = true
+	return trimLength
 }
 
 func (chars *Chars) LeadingWhitespaces() int {
